@@ -250,9 +250,34 @@ Definition inst (c : clo) (mk : list act -> ckind) (s : st) : citem * st :=
   let '(caps, s1) := take_caps (clo_caps c) s in
   (CI uid (clo_id c) (mk (clo_body c)) caps, emit (set_nuid s1 (uid + 1)%N) (EClo uid (clo_id c))).
 
+Definition target_ev (s : st) (ci : citem) : st :=
+  match ci with
+  | CI u _ (KMeth a _ _) _ => emit s (ETarget u a false)
+  | CI u _ (KPrep a _ _) _ => emit s (ETarget u a true)
+  | _ => s
+  end.
+
+Definition inst_call (c : clo) (mk : list act -> ckind) (s : st) : citem * st :=
+  let '(ci, s1) := inst c mk s in (ci, target_ev s1 ci).
+
 Definition inst_nocaps (c : clo) (mk : list act -> ckind) (s : st) : citem * st :=
   let uid := nuid s in
   (CI uid (clo_id c) (mk (clo_body c)) [], emit (set_nuid s (uid + 1)%N) (EClo uid (clo_id c))).
+
+(* closures created inside a Drop impl (token scripts) capture from the global environment only *)
+Fixpoint take_env_caps (ids : list N) (s : st) : list (N * hval) * st :=
+  match ids with
+  | [] => ([], s)
+  | h :: r => match aget (env s) h with
+              | Some v => let '(l, s2) := take_env_caps r (set_env s (adel (env s) h)) in ((h, v) :: l, s2)
+              | None => take_env_caps r s
+              end
+  end.
+
+Definition inst_env (c : clo) (mk : list act -> ckind) (s : st) : citem * st :=
+  let '(caps, s1) := take_env_caps (clo_caps c) s in
+  let uid := nuid s1 in
+  (CI uid (clo_id c) (mk (clo_body c)) caps, emit (set_nuid s1 (uid + 1)%N) (EClo uid (clo_id c))).
 
 Definition push_main (s : st) (ci : citem) : st := set_mainq s (mainq s ++ [ci]).
 
@@ -420,12 +445,51 @@ Fixpoint live_after (t : list ev) (live : list (N * N)) : list (N * N) :=
 Definition leaks (t : list ev) : list ev := map (fun p => ELeak (fst p) (snd p)) (live_after t []).
 
 (* ------------------------------------------------------------------ *)
+(** * Class predicates of the known findings, decided on the final state of the model *)
+
+(* does the notifier of a child hold a reference to actor [p]? *)
+Fixpoint ret_refs (r : ret) (p : N) : bool :=
+  match r with
+  | Ret _ (RKNotify _ (Some (q, _))) => N.eqb p q
+  | Ret _ (RKSlab q _ inner) => N.eqb p q || ret_refs inner p
+  | _ => false
+  end.
+
+Definition child_refs (l : list (N * actor)) (p : N) (c : N) : bool :=
+  match aget l c with
+  | Some x => match a_notify x with Some nt => ret_refs nt p | None => false end
+  | None => false
+  end.
+
+Definition owned_children (sa : astate) : list N :=
+  match sa with
+  | SReady sh slab _ =>
+      flat_map (fun hv => match snd hv with HOwn c | HAnon c => [c] | _ => [] end) sh ++
+      flat_map (fun e => match e with SOcc c => [c] | SVac _ => [] end) slab
+  | _ => []
+  end.
+
+(* F5 (PendingTermAtTeardown): a Prep actor left with held calls.
+   F7 (PendingTermChildCycle): an unterminated actor owning a child whose notifier refers back to it. *)
+Definition class_flags (s : st) : st :=
+  fold_left (fun s0 p =>
+               let a := fst p in let x := snd p in
+               if a_freed x then s0 else
+               match a_state x with
+               | SPrep (_ :: _) => emit s0 (EModel M_PREPHELD a)
+               | SReady _ _ _ =>
+                   if existsb (child_refs (actors s) a) (owned_children (a_state x))
+                   then emit s0 (EModel M_CHILDCYCLE a) else s0
+               | _ => s0
+               end) (actors s) s.
+
+(* ------------------------------------------------------------------ *)
 (** * Acts *)
 
 Definition bad (s : st) (code : N) : list mop * st := ([], emit s (EBad code)).
 
 Definition tok_script (s : st) (script : list clo) : st :=
-  fold_left (fun s0 c => let '(ci, s1) := inst_nocaps c KPlain s0 in submit s1 QMain ci) script s.
+  fold_left (fun s0 c => let '(ci, s1) := inst_env c KPlain s0 in submit s1 QMain ci) script s.
 
 (* the notifier of a new actor *)
 Definition mk_notifier (s : st) (a : N) (n : option (N * clo)) : ret * st :=
@@ -437,7 +501,7 @@ Definition mk_notifier (s : st) (a : N) (n : option (N * clo)) : ret * st :=
           match handle_actor v with
           | Some p =>
               let s1 := ref_clone s p in
-              let '(ci, s2) := inst c (fun b => KMeth p b None) s1 in
+              let '(ci, s2) := inst_call c (fun b => KMeth p b None) s1 in
               (Ret a (RKNotify a (Some (p, ci))), s2)
           | None => (Ret a (RKNotify a None), emit s (EBad 20))
           end
@@ -446,13 +510,14 @@ Definition mk_notifier (s : st) (a : N) (n : option (N * clo)) : ret * st :=
   end.
 
 (* ActorRc::new + ActorOwn::construct *)
-Definition new_actor (s : st) (a : N) (nt : ret) (parent : Z) : st :=
+Definition new_actor (s : st) (a : N) (nt : ret) (parent : Z) (visible_owner : bool) : st :=
   let id := oz (log_id_next (logseq s)) in
   let s1 := set_logseq s id in
   let s2 := log_rec s1 id LOGLEVEL_OPEN parent 0 in
   let strong := oz (count_inc (oz count_new)) in
   let x := mkActor (SPrep []) strong MINRC_INIT (Some nt) id false in
-  emit (emit (upd_actor s2 a x) (EActor a)) (EOwnNew a).
+  let s3 := emit (upd_actor s2 a x) (EActor a) in
+  if visible_owner then emit s3 (EOwnNew a) else s3.
 
 Definition do_act (a : act) (s : st) : list mop * st :=
   match a with
@@ -516,7 +581,7 @@ Definition do_act (a : act) (s : st) : list mop * st :=
         | None =>
             let parent := ctx_logid s in
             let '(nt, s1) := mk_notifier s a n in
-            let s2 := new_actor s1 a nt parent in
+            let s2 := new_actor s1 a nt parent true in
             bind s2 h (HOwn a)
         end
       else bad s 10
@@ -526,7 +591,7 @@ Definition do_act (a : act) (s : st) : list mop * st :=
           match handle_actor v with
           | Some a =>
               let s1 := ref_clone s a in
-              let '(ci, s2) := inst c (fun b => KMeth a b None) s1 in
+              let '(ci, s2) := inst_call c (fun b => KMeth a b None) s1 in
               ([], submit s2 QMain ci)
           | None => bad s 11
           end
@@ -538,7 +603,7 @@ Definition do_act (a : act) (s : st) : list mop * st :=
           match handle_actor v with
           | Some a =>
               let s1 := ref_clone s a in
-              let '(ci, s2) := inst c (fun b => KPrep a b ready) s1 in
+              let '(ci, s2) := inst_call c (fun b => KPrep a b ready) s1 in
               ([], submit s2 QMain ci)
           | None => bad s 12
           end
@@ -639,13 +704,13 @@ Definition do_act (a : act) (s : st) : list mop * st :=
                   let '(inner, s1) := mk_notifier s a n in
                   let s2 := ref_clone s1 p in                      (* the wrapper's [parent] *)
                   let '(slab', nx', key) := slab_insert slab nx a in
-                  let s3 := new_actor s2 a (Ret a (RKSlab p key inner)) (a_logid px) in
+                  let s3 := new_actor s2 a (Ret a (RKSlab p key inner)) (a_logid px) false in
                   let s4 := ref_clone s3 a in                      (* actorown.clone() *)
                   let s5 := match aget (actors s4) p with
                             | Some px' => upd_actor s4 p (with_state px' (SReady sh slab' nx'))
                             | None => s4
                             end in
-                  bind s5 h (HAct a)
+                  bind (emit s5 (ESlabAdd p a)) h (HAct a)
               | _ => bad s 22
               end
           | _, _ => bad s 22
@@ -657,7 +722,7 @@ Definition do_act (a : act) (s : st) : list mop * st :=
       | XCx a false =>
           match aget (actors s) a with
           | Some x => match a_state x with
-                      | SReady _ slab _ => ([], emit s (ENum TAG_SLABLEN (slab_len slab)))
+                      | SReady _ slab _ => ([], emit s (ESlabLen a (slab_len slab)))
                       | _ => bad s 23
                       end
           | None => bad s 23
@@ -669,7 +734,7 @@ Definition do_act (a : act) (s : st) : list mop * st :=
       | Some v =>
           match handle_actor v with
           | Some a => match aget (actors s) a with
-                      | Some x => ([], emit s (EBool TAG_ZOMBIE (ob (count_is_zombie (a_strong x)))))
+                      | Some x => ([], emit s (EIsZombie a (ob (count_is_zombie (a_strong x)))))
                       | None => bad s 24
                       end
           | None => bad s 24
@@ -686,8 +751,8 @@ Definition do_act (a : act) (s : st) : list mop * st :=
           | Some v => match handle_actor v with
                       | Some a =>
                           let s1 := ref_clone s a in
-                          let '(ci, s2) := inst c (fun b => KMeth a b None) s1 in
-                          bind (emit s2 (ERetNew r)) h (HRet (Ret r (RKTo a ci)))
+                          let '(ci, s2) := inst_call c (fun b => KMeth a b None) s1 in
+                          bind (emit (emit s2 (ERetNew r)) (ERetTo r (ci_uid ci) false)) h (HRet (Ret r (RKTo a ci)))
                       | None => bad s 25
                       end
           | None => bad s 25
@@ -697,8 +762,8 @@ Definition do_act (a : act) (s : st) : list mop * st :=
           | Some v => match handle_actor v with
                       | Some a =>
                           let s1 := ref_clone s a in
-                          let '(ci, s2) := inst c (fun b => KMeth a b None) s1 in
-                          bind (emit s2 (ERetNew r)) h (HRet (Ret r (RKSomeTo a ci)))
+                          let '(ci, s2) := inst_call c (fun b => KMeth a b None) s1 in
+                          bind (emit (emit s2 (ERetNew r)) (ERetTo r (ci_uid ci) true)) h (HRet (Ret r (RKSomeTo a ci)))
                       | None => bad s 25
                       end
           | None => bad s 25
@@ -706,7 +771,8 @@ Definition do_act (a : act) (s : st) : list mop * st :=
       end
   | ARetSend h v =>
       match lookup s h with
-      | Some (HRet r) => let '(_, s1) := take s h in ([MRetInvoke r (Some (MNum v))], s1)
+      | Some (HRet (Ret rid rk)) =>
+          let '(_, s1) := take s h in ([MRetInvoke (Ret rid rk) (Some (MNum v))], emit s1 (ERetSent rid v))
       | _ => bad s 26
       end
   | ANewFwd h f k =>
@@ -732,19 +798,21 @@ Definition do_act (a : act) (s : st) : list mop * st :=
       match lookup s h with
       | Some (HFwd f) =>
           match aget (fwds s) f with
-          | Some (FwdObj _ (FClos body) _) =>
-              ([MActs body; MPopFrame], push_frame (emit s (EFwd f v)) XNone [])
+          | Some (FwdObj rc (FClos body) tg) =>
+              (* the sender holds its own clone while the handler runs *)
+              let s1 := set_fwds s (aset (fwds s) f (FwdObj (oz (minrc_clone rc)) (FClos body) tg)) in
+              ([MActs body; MPopFrame; MDropVal (HFwd f)], push_frame (emit s1 (EFwd f v)) XNone [])
           | Some (FwdObj _ (FTo _ c) (Some a)) =>
               let s1 := ref_clone s a in
               let '(ci, s2) := inst_nocaps c (fun b => KMeth a b (Some v)) s1 in
-              ([], submit s2 QMain ci)
+              ([], submit (target_ev s2 ci) QMain ci)
           | _ => bad s 28
           end
       | _ => bad s 28
       end
   | ANewTok h t script => bind (emit s (ETokNew t)) h (HTok t script)
-  | ALog lvl => if has_core s then ([], log_rec s (ctx_logid s) lvl 0 0) else bad s 29
-  | ALogCheck lvl => if has_core s then ([], emit s (EBool TAG_LOGCHECK (allows s lvl))) else bad s 30
+  | ALog lvl => if has_core s then ([], log_rec (emit s (ELogReq (ctx_logid s) lvl)) (ctx_logid s) lvl 0 0) else bad s 29
+  | ALogCheck lvl => if has_core s then ([], emit s (ELogCheck lvl (allows s lvl))) else bad s 30
   | ANow => if has_core s then ([], emit s (ENum TAG_NOW (now s))) else bad s 31
   | AStart => if has_core s then ([], emit s (ENum TAG_START (start s))) else bad s 32
   | AShutdown => if has_core s then ([], set_shut (emit s (EBool TAG_NOTSHUT (negb (shut s)))) true) else bad s 33
@@ -953,10 +1021,11 @@ Definition do_top (o : top) (s : st) : list mop * st :=
   | TDropStakker => if alive s then ([MDrain 0], emit s EDropBegin) else ([], s)
   | TDropAll => ([MDropAll], s)
   | TSetLogger lvls =>
-      if alive s then ([], set_haslogger (set_logfilter s (filter_of lvls)) true) else bad s 51
+      if alive s then ([], set_haslogger (set_logfilter (emit s (ESetLogger lvls)) (filter_of lvls)) true) else bad s 51
   | TSetFilter lvls =>
       if alive s then
-        let s1 := if haslogger s then emit s (ELog 0 LOGLEVEL_INFO 0 9) else s in
+        let s0 := emit s (ESetFilter lvls) in
+        let s1 := if haslogger s0 then emit s0 (ELog 0 LOGLEVEL_INFO 0 9) else s0 in
         ([], set_logfilter s1 (filter_of lvls))
       else bad s 52
   end.
@@ -1071,10 +1140,7 @@ Definition step (k : list mop) (s : st) : option (list mop * st) :=
         | MEpilogue =>
             ([MTop TDropStakker; MDropAll; MTop (TNew 0); MTop TDropStakker; MLeaks], emit s EEpilogue)
         | MLeaks =>
-            let s1 := fold_left (fun s0 p => match a_state (snd p) with
-                                             | SPrep (_ :: _) => emit s0 (EModel M_PREPHELD (fst p))
-                                             | _ => s0
-                                             end) (actors s) s in
+            let s1 := class_flags s in
             ([], set_tr s1 (rev (leaks (rev (tr s1))) ++ tr s1))
         end in
       Some (pre ++ k', s')
